@@ -49,7 +49,7 @@ def run(ctx):
         sentinel = [sub.choice([-7.5, 1e300, 3.25, float('nan')]) for _ in range(N * K)]
         cases += [mk(3 * k, m['recs'], []), mk(3 * k + 1, recs2, []), mk(3 * k + 2, m['recs'], sentinel)]
         trip.append((3 * k, m, nflip, sentinel))
-    res = ctx.component('K-E2E', cases)
+    res = ctx.component('K-E2E(triples, implementation only)', cases, model=False)
     n_eval = 0
     keys = set()
     max_asym = 0.0
